@@ -167,3 +167,44 @@ func VerifC04Round1Proofs() {
 	vs.Assert("own-key-proof-verifies", VerifyOwnPubKeySignature(mid, ctx, sigOwn, pub) == nil)
 	vs.Reach("proofs-verified", true)
 }
+
+func init() { vs.RegisterHarness("VerifC04ForgedComplaintProof", VerifC04ForgedComplaintProof) }
+
+// VerifC04ForgedComplaintProof: a complaint proof must bind the presented symmetric key to the two one-time keys.
+// The forgery keeps the first equation true (A1 = kG, z = k + c*x_i with the complainant's real one-time key) and
+// presents a wrong symmetric key keySym' = keySym + delta*G (delta != 0) with c computed over it: only the second
+// equation z*PubJ = A2 + c*keySym' can reject it. Built from the real values, so a counterexample does not depend on
+// the solver's choice of hash outputs. (A complaint verified against a wrong symmetric key decrypts garbage and
+// blames an honest dealer.)
+func VerifC04ForgedComplaintProof() {
+	vs.AssumeHashScalars()
+	xi, xj, k := c03Scalar("one_time_priv_i"), c03Scalar("one_time_priv_j"), c03Scalar("proof_nonce")
+	pubI, pubJ := xi.Point(), xj.Point()
+	keySym, err := ComputeSecretSym(xi, pubJ)
+	vs.Assert("key-sym-ok", err == nil)
+	delta := c03Scalar("delta_key_sym")
+	wrongKey, err := SumPoints(keySym, delta.Point())
+	vs.Assume(err == nil && wrongKey.Validate() == nil)
+
+	a1 := k.Point()
+	a2, err := ComputeSecretSym(k, pubJ)
+	vs.Assert("nonce-sym-ok", err == nil)
+	c, err := HashRound3Complain(a1, a2, pubI, pubJ, wrongKey)
+	vs.Assume(err == nil)
+	sig, err := Sign(xi, c, k, nil)
+	vs.Assume(err == nil)
+	forged, err := NewComplaintSignatureFromComponents(sig.R(), a2, sig.S())
+	vs.Assume(err == nil)
+
+	vs.Assert("proof-for-a-wrong-symmetric-key-rejected", VerifyComplaintSignature(pubI, pubJ, wrongKey, forged) != nil)
+
+	// control: the same construction over the real symmetric key is an honest proof and is accepted
+	c2, err := HashRound3Complain(a1, a2, pubI, pubJ, keySym)
+	vs.Assume(err == nil)
+	sig2, err := Sign(xi, c2, k, nil)
+	vs.Assume(err == nil)
+	honest, err := NewComplaintSignatureFromComponents(sig2.R(), a2, sig2.S())
+	vs.Assume(err == nil)
+	vs.Assert("honest-proof-accepted", VerifyComplaintSignature(pubI, pubJ, keySym, honest) == nil)
+	vs.Reach("forgery-built", true)
+}
